@@ -90,9 +90,13 @@ func (w *world) freshLogin() string {
 
 func (w *world) genPW() string {
 	r := w.c.R
-	switch r.Intn(5) {
+	switch r.Intn(6) {
 	case 0:
 		return ""
+	case 5:
+		// clear text starting with 0xFF: its transmitted (obfuscated) form starts with a zero byte, like the
+		// one-byte "unchanged" marker, but is a real password
+		return "\xff" + string(r.Printable(1+r.Intn(12)))
 	case 1:
 		b := r.Bytes(1 + r.Intn(30))
 		for i := range b {
